@@ -364,10 +364,21 @@ func (p *Planner) tryOptimizeJoinDirectionByFilter(node *invertibleTypeJoin, par
 			relevantFilter := filter.CopyField(parentPlan.selectNode.filter, relatedField,
 				mapper.Field{Name: subFieldName, Index: subFieldInd})
 
+			// The inverted join only produces parents that have a related document. If a parent without
+			// one satisfies the condition on the relation (e.g. _ne, or _eq: null) the join has to
+			// keep its direction, otherwise those parents would be lost.
+			matchesWithoutRelated, err := mapper.RunFilter(node.documentMapping.NewDoc(), relevantFilter)
+			if err != nil {
+				return false, err
+			}
+			if matchesWithoutRelated {
+				continue
+			}
+
 			fieldFilter := extractRelatedSubFilter(relevantFilter, node.parentSide.plan.DocumentMap(), relatedField)
 			// At the moment we just take the first index, but later we want to run some kind of analysis to
 			// determine which index is best to use. https://github.com/sourcenetwork/defradb/issues/2680
-			err := node.invertJoinDirectionWithIndex(indexes[0], fieldFilter, nil)
+			err = node.invertJoinDirectionWithIndex(indexes[0], fieldFilter, nil)
 			if err != nil {
 				return false, err
 			}
